@@ -137,7 +137,7 @@ def run_job(spec):
                 if bad:
                     res['refuted'] += 1
                     if eng.check3() == 'sat':
-                        m = eng.solver.model()
+                        m = eng.model()
                         n = H['name']
                         cname = n if isinstance(n, str) else "".join(c if isinstance(c, str) else chr(m.eval(c.t, model_completion=True).as_long()) for c in n.cs)
                         res['cex'].append({'kind': 'names', 'name': cname, 'key': key, 'depth': depth, 'why': f"{cname}: " + "; ".join(bad[:2]),
@@ -145,7 +145,7 @@ def run_job(spec):
                 else:
                     res['discharged'] += 1
                     if len(res['witnesses']) < 3 and eng.check3() == 'sat' and depth:
-                        m = eng.solver.model()
+                        m = eng.model()
                         n = H['name']
                         cname = "".join(c if isinstance(c, str) else chr(m.eval(c.t, model_completion=True).as_long()) for c in n.cs)
                         res['witnesses'].append({'kind': 'names', 'name': cname, 'key': key, 'depth': depth})
